@@ -102,7 +102,12 @@ class Sim:
         out = []
         n = 0
         G = self.genome
-        for st_ in range(s0 - rl + step + phase0, s1, step):
+        starts = range(s0 - rl + step + phase0, s1, step)
+        if getattr(self, "mirror", False) and self.gene.strand < 0:
+            # mirror image of the + strand tiling (reads laid out from the RefSeq 5' end): the two builds of a database that maps the
+            # gene to opposite strands then get the same reads in RefSeq terms, hence the same phase links between sites
+            starts = [s0 + s1 - st_ - rl for st_ in starts][::-1]
+        for st_ in starts:
             a = max(st_, s0)
             b = min(st_ + rl, s1)
             # a read never shows half of a multi-nucleotide substitution: start after it
